@@ -471,14 +471,15 @@ def pow_symm(A, m):
     """
     return symmetric_matrix_function(A, lambda x: np.power(x, m))
 
-# This function loses precision when lam1 -> lam2.
-# Please replace with a numerically stable implmentation if you know how!
+# (lam1**m - lam2**m)/(lam1 - lam2), evaluated through expm1/log1p so that it
+# keeps its precision when lam1 -> lam2.
 def _pow_relative_difference(lam1, lam2, m):
     lams = np.array([lam1, lam2])
     i = np.argsort(np.abs(lams))
     lam_small, lam_big = lams[i]
-    arg = lam_small/lam_big
-    return lam_big**(m-1)*(arg**m - 1)/(arg - 1)
+    x = (lam_small - lam_big)/lam_big
+    x_safe = np.where(x == 0.0, 1.0, x)
+    return lam_big**(m-1)*np.where(x == 0.0, m, np.expm1(m*np.log1p(x_safe))/x_safe)
 
 @pow_symm.defjvp
 def _pow_symm_jvp(primals, tangents):
